@@ -48,6 +48,7 @@ def eval_tree(chk, node, root, branch, counter, threads):
     if isinstance(node, str):
         return node
     args = [eval_tree(chk, ch, root, branch, counter, threads) for ch in node]
+    chk.rng.shuffle(args)          # the order in which a stage is given its inputs is one more way of splitting
     counter[0] += 1
     out_path = os.path.join(root, "stage_%d.info" % counter[0])
     rc, out, err = pipeline.run_cli(args, threads, branch, cwd=root)
@@ -65,7 +66,7 @@ def has_xml(node):
 def run(chk):
     chk.proofs()
     rng = chk.rng
-    n = 40 if chk.tier == "quick" else 400
+    n = 120 if chk.tier == "quick" else 1200
     known = {e["key"]: e for e in vlib.known_findings(chk.pid) if e.get("status") == "known"}
     dist = {"scenarios": n, "with_xml": 0, "without_branch": 0, "depths": []}
     for i in range(n):
@@ -87,7 +88,7 @@ def run(chk):
         dist["with_xml"] += has_xml(tree)
         dist["without_branch"] += not branch
         dist["depths"].append(depth)
-        rc, direct, err = pipeline.run_cli(files, rng.choice([1, 2, 4]), branch, cwd=root)
+        rc, direct, err = pipeline.run_cli(rng.sample(files, len(files)), rng.choice([1, 2, 4]), branch, cwd=root)
         chk.count()
         if rc != 0:
             chk.violation({"kind": "oracle", "clause": "direct run failed", "stderr": err[-500:]}, tag="cli")
@@ -112,7 +113,7 @@ def run(chk):
         chk.sample({"partition": json.loads(json.dumps(tree).replace(ind + "/", "")), "branch": branch, "report_bytes": len(direct)}, limit=3)
         shutil.rmtree(root, ignore_errors=True)
     chk.extra["distribution"] = dist
-    chk.cov["rule"] = ("scenarios of 2-6 .info/.xml inputs, a random nested partition (depth 1-3), with and without --branch, 1-4 threads per stage: the lcov report of the "
+    chk.cov["rule"] = ("scenarios of 2-6 .info/.xml inputs, a random nested partition (depth 1-3), with and without --branch, 1-4 threads per stage, every stage and the single run given their inputs in a shuffled order: the lcov report of the "
                        "single run must equal (as record sets, summary lines included) the report obtained by aggregating every shard to lcov and aggregating those; "
                        "non-trivial = scenario that agreed; the model side is the composition theorem (no separate evaluation)")
     chk.cov["trusted_base"] = ["Coq kernel", "C01 and C05 developments (composition)", "CLI runs, Python record reader"]
